@@ -67,6 +67,13 @@ def tasks(tier):
                        faults=[(site, idx, "RuntimeError")])
             for e in ENTRIES:
                 out.append({"family": "outcome-fault", "cfg": cfg, "entry": e, "bound": 0})
+    # the abort arrives from the on_attempt_start hook (AbortRetryError raised before attempt k)
+    for M, idx, e in itertools.product((2, 3), (0, 1, 2), ENTRIES + ENTRIES0):
+        if e in ENTRIES0 and (M > 2 or idx > 0):
+            continue
+        cfg = dict(M=M if e not in ENTRIES0 else 1, alphabet=["ok", "x:T", "r:T"] if e not in ENTRIES0 else ["ok", "x:T"],
+                   max_unknown=None, attempt_hooks="call", faults=[("astart", idx, "AbortRetryError")])
+        out.append({"family": "outcome-hook-abort", "cfg": cfg, "entry": e, "bound": 0})
     # no retry component
     for e in ENTRIES0:
         cfg = dict(M=1, alphabet=["ok"] + [f"x:{k}" for k in "TRSCUPAF"] + ["abort", "kbd", "cancel"],
@@ -100,6 +107,22 @@ def tasks(tier):
 def monitor(w, cfg):
     v = []
     for call in split_calls(w.trace):
+        hook_abort = [r for r in call.records if r[0] == "fault" and r[1] == "astart"
+                      and "AbortRetryError" in r]
+        if hook_abort:
+            end = call.end
+            if end is None or end[1] != "outcome":
+                v.append(("c11.no-outcome", f"abort raised by on_attempt_start: execute() ended "
+                                            f"with {end[:3] if end else None}"))
+            else:
+                ok, reason, attempts = end[2], end[4], end[5]
+                if ok or reason != "ABORTED":
+                    v.append(("c11.stop-reason", f"aborted by on_attempt_start: ok={ok} "
+                                                 f"stop_reason={reason}"))
+                if attempts != len(call.ops):
+                    v.append(("c11.attempts", f"outcome.attempts={attempts}, operation invoked "
+                                              f"{len(call.ops)} times (abort from on_attempt_start)"))
+            continue
         v.extend(check_execute(cfg, call, no_retry=call.entry.split(".")[0].endswith("0")))
     return v
 
